@@ -129,6 +129,53 @@ theorem farm_guards_pinned : Irismod.Gen.PureFarm.guards =
      "msgServer.Harvest: sender, err := sdk.AccAddressFromBech32(msg.Sender); err != nil",
      "msgServer.Harvest: reward, err := m.k.Harvest(ctx, msg.PoolId, sender); err != nil"] := rfl
 
+/-- every statement of these functions executed for its effect — a call whose result is dropped (store and bank
+writes, queue moves, hooks) or a write to a record field — with its nesting depth, in source order: a write that is
+dropped, duplicated, reordered or moved into or out of a branch breaks this -/
+theorem farm_effects_pinned : Irismod.Gen.PureFarm.effects =
+    ["updatePool: d2 rules[i].RewardPerShare = rules[i].RewardPerShare.Add(newRewardPerShare)",
+     "updatePool: d2 rules[i].RemainingReward = rules[i].RemainingReward.Sub(rewardCollected)",
+     "updatePool: d2 k.SetRewardRule(ctx, pool.Id, rules[i])",
+     "updatePool: d0 pool.TotalLptLocked = sdk.NewCoin( pool.TotalLptLocked.Denom, pool.TotalLptLocked.Amount.Add(amount), )",
+     "updatePool: d0 pool.LastHeightDistrRewards = ctx.BlockHeight()",
+     "updatePool: d1 pool.EndHeight = ctx.BlockHeight()",
+     "updatePool: d2 pool.StartHeight = pool.EndHeight",
+     "updatePool: d0 pool.Rules = rules",
+     "updatePool: d0 k.SetPool(ctx, pool)",
+     "AdjustPool: d0 pool.Rules = k.GetRewardRules(ctx, pool.Id)",
+     "AdjustPool: d2 rules[i].TotalReward = rules[i].TotalReward.Add(reward.AmountOf(rules[i].Reward))",
+     "AdjustPool: d2 rules[i].RemainingReward = rules[i].RemainingReward.Add(reward.AmountOf(rules[i].Reward))",
+     "AdjustPool: d0 pool.Rules = rules.UpdateWith(rewardPerBlock)",
+     "AdjustPool: d0 k.SetRewardRules(ctx, pool.Id, pool.Rules)",
+     "AdjustPool: d0 k.DequeueActivePool(ctx, pool.Id, pool.EndHeight)",
+     "AdjustPool: d0 pool.EndHeight = expiredHeight",
+     "AdjustPool: d0 k.SetPool(ctx, pool)",
+     "AdjustPool: d0 k.EnqueueActivePool(ctx, pool.Id, pool.EndHeight)",
+     "EndBlocker: d0 k.IteratorExpiredPool(ctx, ctx.BlockHeight(), func(pool types.FarmPool) { logger.Info( \"The farm pool has expired, refund to creator\", \"poolId\", pool.Id, \"endHeight\", pool.EndHeight, \"lastHeightDistrRewards\", pool.LastHeightDistrRewards, \"totalLptLocked\", pool.TotalLptLocked, \"creator\", pool.Creator, ) if _, err := k.Refund(ctx, pool); err != nil { logger.Error(\"The farm pool refund failed\", \"poolId\", pool.Id, \"creator\", pool.Creator, \"errMsg\", err.Error(), ) } })",
+     "EndBlocker: d1 logger.Info( \"The farm pool has expired, refund to creator\", \"poolId\", pool.Id, \"endHeight\", pool.EndHeight, \"lastHeightDistrRewards\", pool.LastHeightDistrRewards, \"totalLptLocked\", pool.TotalLptLocked, \"creator\", pool.Creator, )",
+     "EndBlocker: d2 logger.Error(\"The farm pool refund failed\", \"poolId\", pool.Id, \"creator\", pool.Creator, \"errMsg\", err.Error(), )",
+     "Keeper.Stake: d0 farmInfo.RewardDebt = rewardDebt",
+     "Keeper.Stake: d0 farmInfo.Locked = farmInfo.Locked.Add(lpToken.Amount)",
+     "Keeper.Stake: d0 k.SetFarmInfo(ctx, farmInfo)",
+     "Keeper.Unstake: d1 pool.Rules = k.GetRewardRules(ctx, pool.Id)",
+     "Keeper.Unstake: d1 pool.TotalLptLocked = pool.TotalLptLocked.Sub(lpToken)",
+     "Keeper.Unstake: d1 k.SetPool(ctx, pool)",
+     "Keeper.Unstake: d0 farmInfo.RewardDebt = rewardDebt",
+     "Keeper.Unstake: d0 farmInfo.Locked = farmInfo.Locked.Sub(lpToken.Amount)",
+     "Keeper.Unstake: d1 k.DeleteFarmInfo(ctx, poolId, sender.String())",
+     "Keeper.Unstake: d0 k.SetFarmInfo(ctx, farmInfo)",
+     "Keeper.Harvest: d0 farmInfo.RewardDebt = rewardDebt",
+     "Keeper.Harvest: d0 k.SetFarmInfo(ctx, farmInfo)",
+     "Keeper.Refund: d0 k.DequeueActivePool(ctx, pool.Id, pool.EndHeight)",
+     "Keeper.Refund: d1 r.RemainingReward = math.ZeroInt()",
+     "Keeper.Refund: d1 k.SetRewardRule(ctx, pool.Id, r)",
+     "Keeper.createPool: d1 k.SetRewardRule(ctx, pool.Id, rewardRule)",
+     "Keeper.createPool: d1 pool.Rules = append(pool.Rules, rewardRule)",
+     "Keeper.createPool: d0 pool.EndHeight = endHeight",
+     "Keeper.createPool: d0 k.SetPool(ctx, pool)",
+     "Keeper.createPool: d0 k.EnqueueActivePool(ctx, pool.Id, pool.EndHeight)",
+     "msgServer.CreatePoolWithCommunityPool: d0 m.k.SetEscrowInfo(ctx, types.EscrowInfo{ Proposer: msg.Proposer, FundApplied: msg.Content.FundApplied, FundSelfBond: msg.Content.FundSelfBond, ProposalId: proposal.Id, })"] := rfl
+
 /-- block interval of a release: `height - last` (int64 subtraction does not wrap for heights of a chain) -/
 theorem updatePool_blockInterval_eq (h last : Nat) (hl : last ≤ h) (hh : h < 9223372036854775808) :
     updatePool_blockInterval_1 h last = some ((h - last : Nat) : Int) := by
